@@ -327,11 +327,21 @@ pub fn gen_wire_plan(prop: Prop, seed: u64, tier: Tier) -> WirePlan {
         }
         let abuser = i < n_abusers;
         let connects = if legacy { minor == 14 } else { major == 1 && minor >= 14 };
-        let script = if connects {
+        // C09: now and then an ordinary 1.20 connection emits ill-formed payloads, so that the
+        // end of a connection by a failed epoch conversion is part of the explored endings.
+        let gb = prop == Prop::C09 && minor >= 20 && !legacy && rng.chance(1, 8);
+        let mut script = if connects {
             gen_script(&mut rng, &prof, minor, abuser, conformant_others && !abuser, garbage)
         } else {
             Vec::new()
         };
+        if gb {
+            for op in script.iter_mut() {
+                if matches!(op.k, OpKind::EmitEvent | OpKind::Call | OpKind::Reply | OpKind::SendItem) && rng.chance(1, 3) {
+                    op.c = (op.c & !0xf) | 15;
+                }
+            }
+        }
         actors.push(ActorPlan {
             major,
             minor,
@@ -340,6 +350,7 @@ pub fn gen_wire_plan(prop: Prop, seed: u64, tier: Tier) -> WirePlan {
             abuser,
             conformant: conformant_others && !abuser,
             window: *rng.pick(&[1usize, 1, 2, 4, 0]),
+            garbage: gb,
             script,
         });
     }
@@ -360,6 +371,7 @@ pub fn gen_wire_plan(prop: Prop, seed: u64, tier: Tier) -> WirePlan {
             abuser: false,
             conformant: true,
             window: 1,
+            garbage: false,
             script,
         });
     }
